@@ -18,7 +18,7 @@ from typing import Any, Dict, List, Optional, Tuple
 
 from ..cfg import cfg_of
 from ..consteval import ConstEval
-from ..flow import Sym, fpaths, attr_effects, feasible
+from ..flow import Sym, fpaths, attr_effects, feasible, allfacts
 from ..model import FuncInfo, attr_chain, norm, walk_no_nested
 from ..report import Checker
 from .common import idle_predicate_check
@@ -83,10 +83,18 @@ def run(ch: Checker) -> None:
         for p in fpaths(g):
             ch.paths += 1
             ex = p.executed()
+            sym = Sym(p)
             for k, (i, nd, lab) in enumerate(ex):
-                if nd.kind == 'stmt' and nd.ast is not None and any(isinstance(c, ast.Call) and norm(c.func) == 'super().%s' % deleg for c in walk_no_nested(nd.ast)):
+                if nd.kind in ('stmt', 'test') and nd.ast is not None and any(isinstance(c, ast.Call) and norm(c.func) == 'super().%s' % deleg for c in walk_no_nested(nd.ast)):
                     n += 1
-                    stamped = any(isinstance(st, ast.Assign) and attr_chain(st.targets[0]) == 'self.last_activity' and norm(st.value) == 'time.time()' for j, st in p.stmts() if j < i)
+                    stamped = False
+                    for j, st in p.stmts():
+                        if j >= i:
+                            break
+                        tg = st.targets[0] if isinstance(st, ast.Assign) and len(st.targets) == 1 else st.target if isinstance(st, ast.AnnAssign) else None
+                        val = st.value if isinstance(st, (ast.Assign, ast.AnnAssign)) else None
+                        if tg is not None and val is not None and attr_chain(tg) == 'self.last_activity' and norm(sym.value(val, j)) == 'time.time()':
+                            stamped = True
                     if not stamped:
                         bad = ('the client %s is delegated to the base class without stamping last_activity first: a connection that only %s data looks idle and is reaped after --timeout '
                                'although traffic is flowing' % ('read' if 'read' in name else 'write/flush', 'receives' if 'read' in name else 'is sent'), p.describe(16))
@@ -116,7 +124,7 @@ def run(ch: Checker) -> None:
             for c in walk_no_nested(nd.ast):
                 if isinstance(c, ast.Call) and isinstance(c.func, ast.Attribute) and c.func.attr == 'append' and c.args:
                     n += 1
-                    fd = p.facts(i)
+                    fd = list(allfacts(p, i).items())
                     ok = False
                     for sidx, (nid, lb) in enumerate(p.steps[:i]):
                         n2 = g.nodes[nid]
@@ -125,6 +133,11 @@ def run(ch: Checker) -> None:
                             t = norm(e)
                             if t.endswith('.is_inactive()') or t == 'True':
                                 ok = True
+                    # ... or the predicate itself raised (the exception edge out of the statement that evaluates it was taken)
+                    for sidx, (nid, lb) in enumerate(p.steps[:i]):
+                        n2 = g.nodes[nid]
+                        if lb == 'exc' and n2.ast is not None and any(isinstance(c2, ast.Call) and isinstance(c2.func, ast.Attribute) and c2.func.attr == 'is_inactive' for c2 in walk_no_nested(n2.ast)):
+                            ok = True
                     if not ok:
                         bad = ('a work id is queued for reaping on a path where its is_inactive() was not found true', p.describe())
     # the sweep visits every work: the loop over the work table is left only by exhaustion
@@ -147,9 +160,11 @@ def run(ch: Checker) -> None:
     rf = prog.own_method('Threadless', '_run_forever')
     m = rf.module
     g = cfg_of(rf, prog)
-    heads = [nd for nd in g.nodes if nd.kind == 'join' and isinstance(nd.ast, ast.While) and isinstance(nd.ast.test, ast.Constant) and nd.ast.test.value is True]
+    from .common import loop_containing_call, leaves_flag_loop
+    xloop = loop_containing_call(rf, 'self._run_once')
+    heads = [nd for nd in g.nodes if nd.kind == 'join' and nd.ast is xloop] if xloop is not None else []
     if not heads:
-        ch.bad('C20.4', rf, 'while True', 'the executor loop is no longer a `while True` in _run_forever')
+        ch.bad('C20.4', rf, 'executor loop', 'no loop around self._run_once() in _run_forever')
     else:
         head = heads[0]
         # the elapsed test and its counter
@@ -182,7 +197,7 @@ def run(ch: Checker) -> None:
                     if 'DEFAULT_SELECTOR_SELECT_TIMEOUT' not in norm(side):
                         cname = norm(side)
         for p in g.paths(start=head.id, stop=lambda nd: nd.id == head.id or nd.kind == 'exit', limit=20000):
-            if p.end != head.id or not feasible(p):
+            if p.end != head.id or not feasible(p) or leaves_flag_loop(xloop, p):
                 continue
             n_cyc += 1
             incs = 0
@@ -235,8 +250,10 @@ def run(ch: Checker) -> None:
             if p.end != hr[0].id:
                 continue
             ncy += 1
-            tested = any(gr.nodes[nid].kind == 'test' and norm(gr.nodes[nid].ast) == 'self.is_inactive()' for nid, lab in p.steps)  # type: ignore[arg-type]
-            if not tested:
+            # the predicate is evaluated on every way round the loop, and this way round was taken with the predicate false
+            called = any(gr.nodes[nid].ast is not None and gr.nodes[nid].kind in ('stmt', 'test') and
+                         any(isinstance(c, ast.Call) and attr_chain(c.func) == 'self.is_inactive' for c in walk_no_nested(gr.nodes[nid].ast)) for nid, lab in p.steps)  # type: ignore[arg-type]
+            if not called or allfacts(p).get('self.is_inactive()') is not False:
                 okt = False
         okt = okt and ncy > 0
     se = prog.own_method('HttpProtocolHandler', '_selected_events')
